@@ -129,6 +129,8 @@ func c02class(a, b c02target) string {
 	switch {
 	case a.Method != b.Method:
 		return "method"
+	case len(a.wire()) > 100 && len(a.wire()) == len(b.wire()):
+		return "long-target-differing-near-the-end"
 	case !strings.EqualFold(a.Host, b.Host):
 		return "host"
 	case strings.TrimSuffix(a.Path, "/") == strings.TrimSuffix(b.Path, "/") && a.Query == b.Query:
@@ -198,6 +200,14 @@ func c02generate(b core.Batch) []c02target {
 			for _, q := range queries[:min(len(queries), 4)] {
 				out = append(out, c02target{"GET", h, p, q})
 			}
+		}
+	}
+	// long targets that agree in a long prefix and differ only near the end (equal lengths), in path or query
+	for _, n := range []int{120, 230, 260, 300, 600, 2000} {
+		pre := strings.Repeat("segment/", n/8)
+		for _, suf := range []string{"a", "b", "A"} {
+			out = append(out, c02target{"GET", "localhost:80", "/" + pre + "x" + suf, ""})
+			out = append(out, c02target{"GET", "localhost:80", "/long", "?" + strings.Repeat("k=v&", n/4) + "part=" + suf})
 		}
 	}
 	// seeded random longer targets
